@@ -40,6 +40,7 @@ ATTR_MODES = ["unique-string", "None", "[]", "['a','b']", "nasty-string",
               "ends-in-1-backslash", "ends-in-2-backslashes", "ends-in-3-backslashes"]
 COORD_MODES = ["Coord(file,line,column)", "Coord(file,line)", "None",
                "Coord('',0,0)", "Coord(file,0)", "Coord(file,huge,1)"]
+LONG_MODES = ["len-4096", "len-4097", "len-4098", "len-5000", "len-70000"]  # with the first coord mode only
 NASTY = "q\"u'o\\t\\\\e\n\té中\x00 end"
 
 
@@ -660,6 +661,11 @@ def literals():
                 out.append(("string", pre + '"' + b + '"'))
                 out.append(("char", pre + "'" + b + "'"))
             out.append(("pragma", b))  # the text of a #pragma line is kept verbatim in Pragma.string
+    for n in (4094, 4095, 4096, 4097, 4098, 5000, 70000):  # long values (the length counts the quotes)
+        body = ("0123456789" * (n // 10 + 1))[: n - 2]
+        out.append(("string", '"' + body + '"'))
+        out.append(("string", 'L"' + body[:-1] + '"'))
+        out.append(("pragma", body))
     return out
 
 
@@ -786,6 +792,9 @@ def build_config(spec, config, attr_mode, coord_mode):
                 vals[i] = ["a", "b'\"\\"]
             elif attr_mode == "nasty-string":
                 vals[i] = NASTY
+            elif attr_mode.startswith("len-"):
+                n = int(attr_mode.split("-")[1])
+                vals[i] = (f"{spec.fields[i]}:" + "abcdefghij" * (n // 10 + 1))[:n]
             elif attr_mode.startswith("ends-in-"):
                 vals[i] = "q'\"é " + "\\" * int(attr_mode.split("-")[2])
     return getattr(c_ast, spec.name)(*vals, coord(0))
@@ -882,6 +891,7 @@ def run(tier):
     sp = astspec.read_cfg(astspec.cfg_path(core.REPO))
     confs = [(s.name, list(c), am, cm) for s in sp for c in astspec.configurations(s)
              for am in ATTR_MODES for cm in COORD_MODES]
+    confs += [(s.name, list(c), am, COORD_MODES[0]) for s in sp if s.attrs for c in astspec.configurations(s) for am in LONG_MODES]
     st_c = sweep("configurations", _config_work, core.chunked(confs, 200))
     adj = adjacent_programs()
     st_a = sweep("adjacent_literals", _adjacent_work, core.chunked(adj, 150))
@@ -968,7 +978,7 @@ def run(tier):
     R.set("pool_source", src)
     R.set("pool_parts", sizes)
     R.set("bounds", {"literal_alphabet": ALPHABET, "literal_body<=": MAXBODY, "prefixes": PREFIXES,
-                     "pickle_protocols": PROTOCOLS, "attr_modes": ATTR_MODES, "coord_modes": COORD_MODES,
+                     "pickle_protocols": PROTOCOLS, "attr_modes": ATTR_MODES + LONG_MODES, "coord_modes": COORD_MODES,
                      "sequence_child": list(astspec.SEQ_OPTIONS), "pool": src,
                      "adjacent_literals": {"piece_bodies": PIECE_BODIES, "prefixes": PIECE_PREFIXES, "run_lengths": [2, 3],
                                            "contexts": ADJACENT_CONTEXTS, "mixed_prefixes": "2-piece runs"},
